@@ -212,6 +212,9 @@ MUTANTS = [
     ('C14', 'cdf_layer.py', '      result = tf.reduce_mean(result, axis=1)',
      '      result = tf.reduce_mean(cdfs, axis=1)', 'Y1',
      'mean reduction applied to the tensor before the sparsity reshape'),
+    ('C11', 'rtl_layer.py', '    self.kernel_regularizer = kernel_regularizer\n',
+     '    self.kernel_regularizer = kernel_regularizer or []\n', 'S15',
+     'None regularizer stored (and serialised) as an empty list'),
     # ---- neutral variants (must stay silent)
     ('C08', 'lattice_lib.py', '    average = (layers[i] + layers[i + 1]) / 2.0', '    average = 0.5 * (layers[i] + layers[i + 1])',
      None, 'N: average written as 0.5 * sum'),
